@@ -1,4 +1,4 @@
-import IofloModel.Lemmas.Imports
+import IofloModel.Lemmas.ImportsVia
 import IofloModel.Generated.ImportGraph
 /-! C01 table, chunk 5 of 8 (kernel evaluation of the import interpreter on the generated graph; one file per
 chunk so that lake checks the chunks in parallel). -/
